@@ -3,6 +3,15 @@ import GenlmModel.Proofs.GenLink.WfsaString
 import GenlmModel.Proofs.GenLink.Fst
 import GenlmModel.Proofs.GenLink.Cfg
 import GenlmModel.Proofs.GenLink.Cfglm
+import GenlmModel.Proofs.GenLink.WfsaCfg
+import GenlmModel.Proofs.GenLink.WfsaEps
+import GenlmModel.Proofs.GenLink.WfsaPush
+import GenlmModel.Proofs.GenLink.CfgSpawn
+import GenlmModel.Proofs.GenLink.CfgUnfold
+import GenlmModel.Proofs.GenLink.CfgMapValues
+import GenlmModel.Proofs.GenLink.CfgTruncate
+import GenlmModel.Proofs.GenLink.ChartProduct
+import GenlmModel.Proofs.GenLink.Lm
 /-! # The re-checked tie between the Python BUILDER functions and their hand-written models
 
 `harness/translate.py` regenerates `Generated/Builders.lean` from the library's sources on every run; for every
@@ -12,9 +21,18 @@ builder breaks exactly the properties whose models it regenerates:
 
 | file | source | theorems | property |
 |---|---|---|---|
-| `GenLink/Wfsa.lean` | `wfsa/base.py` | `lift`, `zero`, `one`, `reverse`, `__add__`, `__mul__`, `kleene_plus` (`spawn` inlined) | C12 |
+| `GenLink/Wfsa.lean` | `wfsa/base.py` | `lift`, `zero`, `one`, `reverse`, `__add__`, `__mul__`, `kleene_plus`, `rename` (`spawn` inlined) | C12 |
 | `GenLink/WfsaString.lean` | `wfsa/base.py` | `WFSA.from_string` | C12, C10 |
 | `GenLink/Fst.lean` | `fst.py` | `diag`, `from_string`, `T`, `project`, `_augment_epsilon_transitions`, `epsilon_filter_fst`, `from_pairs` | C10 |
 | `GenLink/Cfg.lean` | `cfg.py` | `prefix_transducer` | C03 |
 | `GenLink/Cfglm.lean` | `cfglm.py` | `add_EOS`, `locally_normalize` | C20 |
+| `GenLink/WfsaEps.lean` | `wfsa/base.py` | `epsremove` (closure = explicit arguments) | C11 |
+| `GenLink/WfsaPush.lean` | `wfsa/base.py` | `push` (= the repaired `pushDrop`), `_trim` | C13 |
+| `GenLink/WfsaCfg.lean` | `wfsa/base.py` | `to_cfg` (both recursion directions) | C17 |
+| `GenLink/CfgSpawn.lean` | `cfg.py` | `spawn`, `separate_start`, `rename` (`CFG.spawn` also inlined into every caller) | C02, C06, C07 |
+| `GenLink/CfgUnfold.lean` | `cfg.py` | `unfold` | C06 |
+| `GenLink/CfgMapValues.lean` | `cfg.py` | `map_values` | C07 |
+| `GenLink/CfgTruncate.lean` | `cfg.py` | the acceptor built by `truncate_length` | C09 |
+| `GenLink/ChartProduct.lean` | `chart.py` | `Chart.product` (`Generated/Folds.lean`) | C20 |
+| `GenLink/Lm.lean` | `chart.py`, `lm.py` | `Chart.sum`, `Chart.normalize`, `LM.__call__` (`Generated/Folds.lean`) | C04 |
 -/
